@@ -231,6 +231,52 @@ def slot_increment_rule(ctx: Ctx, rid: str):
         raise AnchorMissing("ResourceScenario.book: the increment of slotSecondsUsed is not a local quantity")
 
 
+def book_effects_rule(ctx: Ctx, rid: str, which: tuple):
+    """Every successful booking leaves all of its traces: in ResourceScenario.book the normal return of the booked amount is
+    dominated (CFG) by the write of the slot total, the per-task record, the increments of the resource's own and its ancestors'
+    limit counters, and the task's limit counters.  An effect that is skipped on some path (`only for shared slots`, `only when
+    nothing was used yet`) leaves a booking the ledger or a counter does not know about.  `which` selects the effects the calling
+    property needs."""
+    book = ctx.repo.func("ResourceScenario.book")
+    g = cfg_of(book)
+    dom = g.dominators()
+    rets = [n for n in g.nodes if isinstance(n.ast, ast.Return) and n.ast.value is not None
+            and not (isinstance(n.ast.value, ast.Constant) and n.ast.value.value in (0, 0.0, None, False))]
+    if not rets:
+        raise AnchorMissing("ResourceScenario.book: return of the booked amount not found")
+    EFFECTS = {
+        "total": ("the slot total slotSecondsUsed[slot]", lambda a: isinstance(a, (ast.Assign, ast.AugAssign)) and any(
+            isinstance(t, ast.Subscript) and norm(t.value) == "self.slotSecondsUsed" for t in (a.targets if isinstance(a, ast.Assign) else [a.target]))),
+        "record": ("the per-task record slotTaskUsage[slot]", lambda a: isinstance(a, ast.Expr) and isinstance(a.value, ast.Call) and isinstance(a.value.func, ast.Attribute)
+                   and a.value.func.attr == "append" and "slotTaskUsage" in norm(a.value.func.value)),
+        "own_limit": ("the resource's own limit counters", lambda a: isinstance(a, ast.Expr) and isinstance(a.value, ast.Call) and norm(a.value.func) == "limits.inc"),
+        # (loop heads carry their test expression in the flow graph)
+        "parent_limit": ("the ancestors' limit counters", lambda a: isinstance(a, ast.Name) and a.id == "parent" and isinstance(getattr(a, "_parent", None), ast.While)),
+        "task_limit": ("the task's limit counters", lambda a: isinstance(a, ast.Expr) and isinstance(a.value, ast.Call) and norm(a.value.func).endswith(".incLimits")),
+    }
+    GUARD_OK = {"own_limit": ("limits",), "task_limit": ("task_scenario",), "record": (), "total": (), "parent_limit": ()}
+    from .common import enclosing_ifs
+    for key in which:
+        what, pred = EFFECTS[key]
+        nodes = [n for n in g.nodes if n.ast is not None and pred(n.ast)]
+        if not nodes:
+            ctx.ob(rid, f"{book.qual}: {what} is written", book, False,
+                   f"book() no longer writes {what}: bookings are not on record", key=key_of(rid, book, None, f"effect {key} missing"))
+            continue
+        for n in nodes[:1]:
+            # guards that only test the existence of the object written to (`if limits and hasattr(limits, 'inc')`) do not skip an effect
+            extra = [norm(i.test) for (i, b) in enclosing_ifs(n.ast, book.node)
+                     if not all(any(tok in norm(lit_) for tok in GUARD_OK[key]) for lit_ in
+                                (i.test.values if isinstance(i.test, ast.BoolOp) else [i.test]))
+                     and "not in self.slotTaskUsage" not in norm(i.test)]
+            ok = not extra
+            ctx.ob(rid, f"{book.qual}: {what} written on every booking", (book, n.ast), ok,
+                   "unconditional apart from the existence test of the object" if ok else
+                   f"{what} is written only under {extra}: a booking made on the other path is missing from it -- the slot can be offered "
+                   "again, or the limit is not counted",
+                   key=key_of(rid, book, None, f"effect {key}"))
+
+
 def run_extra(ctx: Ctx):
     # ---------------------------------------------------------------- R01.8 answers never come from state that outlives the question
     from .common import process_state_rule
@@ -443,6 +489,8 @@ def run(ctx: Ctx):
     ctx.floor("R01.7", 2)
     slot_increment_rule(ctx, "R01.9")
     ctx.floor("R01.9", 1)
+    book_effects_rule(ctx, "R01.10", ("total", "record"))
+    ctx.floor("R01.10", 2)
     ctx.floor("R01.1", 5)
     ctx.floor("R01.2", 7)
     ctx.floor("R01.3", 2)
